@@ -48,7 +48,7 @@ struct Gen {
   vf::Rng& g;
   const S cls;
   const OptSet& o;
-  explicit Gen(vf::Rng& r, const S& c, const OptSet& os) : g(r), cls(c), o(os) {}
+  explicit Gen(vf::Rng& r, const S& c, const OptSet& os) : g(r), cls(c), o(os) { if (c == "comments-hostile") hostile = 0.9; }
   bool is(const char* c) const { return cls == c; }
   S ident() {
     static const S a0 = "abcdefghijklmnopqrstuvwxyzABCDEFGHIJKLMNOPQRSTUVWXYZ_", a1 = a0 + "0123456789";
@@ -147,6 +147,40 @@ struct Gen {
     it.text = g.u01() < 0.6 ? one[g.u64() % 23] : two[g.u64() % 19];
     return it;
   }
+  // hostile-but-valid comment bodies: runs of '*' (also right before the closing "*/"), '/', "/*" and "//" inside,
+  // "*/" inside a // comment, empty bodies, a last line made of stars only.  A C body never holds "*/".
+  S hostile_body(bool c_comment) {
+    static const S al = "abcdefgXYZ0123 _+-=<>(){}[];:,.?#&|^~@$`'\"";
+    static const char* const special[] = {"", "", "*", "**", "***", "*<", "/", "//", " * ", "* *", "/ *", "*\n**", "x\n*", "\n**", "****", "/*", "/*/", "* /"};
+    S body;
+    if (g.u01() < 0.3) {
+      body = special[g.u64() % (sizeof special / sizeof *special)];
+    } else {
+      const int parts = g.irange(0, 6);
+      for (int k = 0; k < parts; ++k) {
+        const double u = g.u01();
+        if (u < 0.3) body += text_chars(1, 6, al);
+        else if (u < 0.5) body += S(size_t(g.irange(1, 7)), '*');
+        else if (u < 0.6) body += "/";
+        else if (u < 0.7) body += "/*";
+        else if (u < 0.76) body += "//";
+        else if (u < 0.82) body += "*/";          // removed below for a C comment
+        else if (u < 0.9) body += " ";
+        else body += c_comment ? S("\n") + text_chars(0, 2, " \t") : S(" ");
+      }
+    }
+    if (c_comment) {
+      const double u = g.u01();
+      if (u < 0.35) body += S(size_t(g.irange(1, 7)), '*');                     // .. ***/
+      else if (u < 0.45) body += "\n" + S(size_t(g.irange(1, 4)), '*');          // last line is only **/
+      size_t q;
+      while ((q = body.find("*/")) != S::npos) body.insert(q + 1, " ");
+    } else {
+      for (auto& c : body) if (c == '\n') c = ' ';
+    }
+    return body;
+  }
+  double hostile = 0.35;
   Item comment(bool can_be_cxx, bool allow_dox, bool allow_back) {
     static const S al = "abcdefgXYZ0123 _+-=<>(){}[];:,.?#&|^~@$`'\"";
     Item it;
@@ -154,15 +188,19 @@ struct Gen {
     const double u = g.u01();
     it.dox = (allow_dox && u < 0.25) ? 1 : ((allow_back && u < 0.45 && u >= 0.25) ? 2 : 0);
     S body;
-    const int words = g.irange(0, 5);
-    for (int w = 0; w < words; ++w) {
-      if (w) body += (it.kind == CCOMMENT && g.u01() < 0.3) ? S("\n") + text_chars(0, 3, " \t") : S(" ");
-      body += text_chars(1, 8, al);
+    if (g.u01() < hostile) {
+      body = hostile_body(it.kind == CCOMMENT);
+    } else {
+      const int words = g.irange(0, 5);
+      for (int w = 0; w < words; ++w) {
+        if (w) body += (it.kind == CCOMMENT && g.u01() < 0.3) ? S("\n") + text_chars(0, 3, " \t") : S(" ");
+        body += text_chars(1, 8, al);
+      }
+      if (g.coin()) body = " " + body;
+      if (g.coin() && it.kind == CCOMMENT) body += " ";
     }
     // the body must not start with the characters that change the comment class
-    if (!body.empty() && (body[0] == '!' || body[0] == '<')) body[0] = 'x';
-    if (g.coin()) body = " " + body;
-    if (g.coin() && it.kind == CCOMMENT) body += " ";
+    if (!body.empty() && (body[0] == '!' || (it.dox == 1 && body[0] == '<'))) body[0] = 'x';
     it.body = body;
     const S mark = it.dox == 0 ? "" : (it.dox == 1 ? "!" : "!<");
     it.text = (it.kind == CCOMMENT ? "/*" : "//") + mark + body + (it.kind == CCOMMENT ? "*/" : "");
@@ -236,6 +274,8 @@ static Stream make_stream(vf::Rng& g, const S& cls, const OptSet& o) {
     else if (u < 0.62) it = G.chr();
     else if (u < 0.85 || cls.rfind("op-", 0) == 0) it = G.op();
     else it = G.comment(!in_preproc || true, true, non_comment_seen);
+    // the class of hostile comments: about half of the items are comments (several on one line, back to back)
+    if (cls == "comments-hostile" && g.u01() < 0.45) it = G.comment(true, true, non_comment_seen);
     if ((cls == "hex" || cls == "binary" || cls == "float-suffix-exp") && i == 0) it = G.number();
     if (cls.rfind("op-", 0) == 0 && i == 1) it = G.op();
     const bool is_comment = it.kind == CCOMMENT || it.kind == CXXCOMMENT;
@@ -279,7 +319,7 @@ static S dump_tokens(const tu::CxxTokenizer& t) {
 }
 
 static void structure_case(const vf::Args& a, uint64_t idx, const S& cls) {
-  const bool exotic = !(cls == "core" || cls == "preprocessor");
+  const bool exotic = !(cls == "core" || cls == "preprocessor" || cls == "comments-hostile");
   const OptSet& o = OPTS[exotic ? 0 : idx % 4];   // the one-feature classes run with the default options only
   vf::Rng g(a.seed, 3101, idx);
   const Stream st = make_stream(g, cls, o);
